@@ -5,6 +5,9 @@ import PV.C13.Domain
 import PV.C13.Fold
 import PV.C13.Overrides
 import PV.Gen.C12Schema
+import PV.C13.Parsed
+import PV.C02.RProgPlain
+import Drv.C02Prog
 /-! Driver for C13: answers the same request lines as `harness/src/bin/pvh_c13.rs` with the model.
 
   `locseq <d|r> <text> <op>…`        ops `l<off>` locate, `o<off>` locate_only, `e<off>` locate_error
@@ -15,6 +18,14 @@ import PV.Gen.C12Schema
                                      `ops=` the call history `locHistory` (cut after the first call that
                                      panics), `fwd=` Forward of it, `ordered=` SrcOrdered of the tree,
                                      `lin=`/`nodes=`/`rnd=` the located trees `foldLocated` of both locators
+  `pfold <d|r> <mode> <src> <tokens> <spans> <tree>`
+                                     the program-parser MODEL `PV.C02.parseRProgram` run on the real tokens and spans:
+                                     its tree `toTree false m` must be the attached real tree up to leaf payloads
+                                     (`skel`; else `tree-mismatch`); then the `fold` answer computed on THE MODEL'S
+                                     tree, and `chk=ok` iff what the parser-level theorems say holds on this input
+                                     (`plainM m → ordM m`, `ordM m ∧ OffsOk → SrcOrdered`, `Conforms`)
+  `pord <mode> <src> <tokens> <spans>`  (not sent to the harness: statistics for the evidence file) the same parse:
+                                     `plainM`, `ordM`, `OffsOk`, `SrcOrdered` (default build / all-nodes-with-ranges)
   `d` = build with debug assertions and overflow checks, `r` = without.
 -/
 open PV PV.C13
@@ -148,7 +159,55 @@ def handleFold (dbg : Bool) (src : List Nat) (t : C12.Tree) : String :=
       | none => "panic"
     s!"ops={orDash (seen.map showOp)} fwd={fwd} ordered={ordered} lin={if lin.isSome then "ok" else "panic"} nodes={nodes} rnd={rnds}"
 
+
+/-! #### `pfold` / `pord`: the tree the program-parser MODEL `PV.C02.parseRProgram` builds from the real tokens and spans -/
+
+def parseSpans (s : String) : Option (List (Nat × Nat)) :=
+  if s == "-" then some [] else
+  (s.splitOn ",").mapM fun w =>
+    match w.splitOn "-" with
+    | [a, b] => match a.toNat?, b.toNat? with
+      | some a, some b => some (a, b)
+      | _, _ => none
+    | _ => none
+
+def modelParse (mode toks att : String) : Option C02.RMod :=
+  match C02Prog.modeOfStr mode, C02Prog.decodeToks toks, parseSpans att with
+  | some md, some tks, some spans =>
+    if tks.length != spans.length then none
+    else C02.parseRProgramA md ((tks.zip spans).map fun (t, (a, b)) => ⟨t, a, b⟩)
+  | _, _, _ => none
+
+def handlePord (mode : String) (src : List Nat) (toks att : String) : String :=
+  match modelParse mode toks att with
+  | none => "parse-none"
+  | some m =>
+    let t0 := toTree false m
+    let t1 := toTree true m
+    s!"plain={C02.plainM m} ordm={ordM m} ok0={decide (OffsOk src t0)} ok1={decide (OffsOk src t1)} so0={decide (SrcOrdered realCfg src t0)} so1={decide (SrcOrdered realCfg src t1)} conf0={decide (C12.Conforms C12.Gen.schema t0)} conf1={decide (C12.Conforms C12.Gen.schema t1)}"
+
+def handlePfold (dbg : Bool) (mode : String) (src : List Nat) (toks att : String) (real : C12.Tree) : String :=
+  match modelParse mode toks att with
+  | none => "parse-none"
+  | some m =>
+    let t := toTree false m
+    if !(C12.Tree.beq (skel t) (skel real)) then "tree-mismatch" else
+    let so := decide (SrcOrdered realCfg src t)
+    let c1 := !(C02.plainM m) || ordM m
+    let c2 := !(ordM m && decide (OffsOk src t)) || so
+    let c3 := decide (C12.Conforms C12.Gen.schema t)
+    let chk := if c1 && c2 && c3 then "ok" else s!"BAD:plain→ordM={c1},ordM∧OffsOk→SrcOrdered={c2},conforms={c3}"
+    s!"{handleFold dbg src t} chk={chk}"
+
 def handle : List String → String
+  | "pfold" :: f :: mode :: t :: toks :: att :: tree =>
+    match flavour f, unhex t, parseTree tree with
+    | some dbg, some src, some (tr, []) => handlePfold dbg mode src toks att tr
+    | _, _, _ => "bad-request"
+  | ["pord", mode, t, toks, att] =>
+    match unhex t with
+    | some src => handlePord mode src toks att
+    | none => "bad-request"
   | "fold" :: f :: _mode :: t :: tree =>
     match flavour f, unhex t, parseTree tree with
     | some dbg, some src, some (tr, []) => handleFold dbg src tr
